@@ -636,6 +636,19 @@ def stackGlue (w : Walker) (sp : Nat) (leaf : Bool) (strip : Option UInt64) (r :
       else some c
     | _, _ => none
 
+/-- stack-pointer and instruction-pointer register names of the `stack` cases' architectures -/
+def spIpNames (arch : String) : Option (Name × Name) :=
+  let a := (stripKey "arch:" arch).getD arch
+  if a == "x86" then some (nameOf "esp", nameOf "eip")
+  else if a == "amd64" then some (nameOf "rsp", nameOf "rip")
+  else if a == "arm64" then some (nameOf "sp", nameOf "pc")
+  else none
+
+/-- the caller's register file after `set_cfa(cfa); set_ra(ra)` of `CfiStackWalker`: the two values
+    are caller registers like any other (`MdProofs.C06Walk`'s `seedFwd` is this list) -/
+def storeCfaRa (spN ipN : Name) (fwd : List (Name × UInt64)) (cfa ra : UInt64) : List (Name × UInt64) :=
+  (ipN, ra) :: eraseName ((spN, cfa) :: eraseName fwd spN) ipN
+
 def handle (_engine : String) (args : List String) : String :=
   match args with
   | ["walk", base, instr, ptr, init, adds, known, al, callee, fwd, mem] =>
@@ -655,15 +668,32 @@ def handle (_engine : String) (args : List String) : String :=
         match optNat strip with
         | some m => if m ≤ U64MAX then some (some (UInt64.ofNat m)) else none
         | none => none
-      match strip?, leaf == "0" || leaf == "1" with
-      | some strip, true =>
+      match strip?, leaf == "0" || leaf == "1", spIpNames _arch with
+      | some strip, true, some (spN, ipN) =>
         match walkFrameO r base w with
         | .panic _ => "PANIC"
-        | .ok res =>
-          match stackGlue w sp (leaf == "1") strip res with
-          | none => "nocfi"
-          | some c => showCaller c
-      | _, _ => "bad-op"
+        | .ok none => "nocfi"
+        | .ok (some c0) =>
+          match c0.cfa, c0.ra with
+          | some cfa, some ra =>
+            -- `CfiStackWalker::set_cfa` / `set_ra` store the CFA and the return address IN the
+            -- stack-pointer and instruction-pointer registers, where a rule labelled with one of
+            -- them overwrites or clears it: walk again with the two stored as caller registers
+            match walkFrameO r base { w with fwd := storeCfaRa spN ipN w.fwd cfa ra } with
+            | .panic _ => "PANIC"
+            | .ok none => "nocfi"
+            | .ok (some c1) =>
+              let spV := c1.get spN
+              let ipV := c1.get ipN
+              -- the unwinders read both raw (a cleared register keeps its last value)
+              let raw : Caller := { cfa := some (spV.getD cfa), ra := some (ipV.getD ra),
+                                    regs := eraseName (eraseName c1.regs spN) ipN }
+              match stackGlue w sp (leaf == "1") strip (some raw) with
+              | none => "nocfi"
+              | some c => showCaller { c with cfa := if spV.isSome then c.cfa else none,
+                                              ra := if ipV.isSome then c.ra else none }
+          | _, _ => "nocfi"
+      | _, _, _ => "bad-op"
     | _, _, _, _ => "bad-op"
   | _ => "bad-op"
 
